@@ -48,12 +48,15 @@ func cmdC09(seed uint64, tier, outdir string) {
 				// a trace configuration must stay read-only during Match as well: wildcard and prefix license
 				// lists, with and without phases (the tracer itself is safe for concurrent use)
 				switch ngo {
+				case 2:
+					// prefix patterns over the document keys (category/name/variant), no phase: nothing is printed
+					shared.SetTraceConfiguration(&classifier.TraceConfiguration{TraceLicenses: "License/A*,License/M*,Header/*,L*", TracePhases: ""})
 				case 16:
 					shared.SetTraceConfiguration(&classifier.TraceConfiguration{TraceLicenses: "*", TracePhases: ""})
 				case 64:
 					var mu sync.Mutex
 					lines := 0
-					shared.SetTraceConfiguration(&classifier.TraceConfiguration{TraceLicenses: "GPL-*,MIT,Apache-*", TracePhases: "*",
+					shared.SetTraceConfiguration(&classifier.TraceConfiguration{TraceLicenses: "License/G*,License/MIT/license.txt,GPL-*,MIT,Supplement/*", TracePhases: "*",
 						Tracer: func(f string, a ...interface{}) { mu.Lock(); lines++; mu.Unlock() }})
 				}
 			}
